@@ -60,6 +60,33 @@ def run(rep, tier):
     backends = ["model32", "noop"] if tier == "quick" else ["model32", "model32gi", "noop", "dylib"]
     dbs = facts.load_core(backends, ["PTR", "INVOKE", "ARR"], thorough=(tier == "thorough"))
     n = {"layout": 0, "opaque": 0, "cast": 0}
+    rep.rule("R-C20-designation", "no library function constructs a tainted_volatile object (copy or otherwise): a tainted_volatile IS a cell of sandbox memory - its address is the example for decoding the pointer it "
+             "holds - so a by-value copy on the application's stack, converted or cast afterwards, designates an address rebased onto application memory")
+    n_scan = 0
+    for db in dbs:
+        for f in db.functions:
+            if f["dep"] or "body" not in f or not f["n"].startswith("rlbox::"):
+                continue
+            n_scan += 1
+            stack = [f["body"]] + [i_.get("e") for i_ in (f.get("inits") or [])]
+            hit = None
+            while stack and hit is None:
+                x = stack.pop()
+                if isinstance(x, dict):
+                    t_ = x.get("t") if isinstance(x.get("t"), dict) else {}
+                    if x.get("k") == "ctor" and (t_.get("rn") or "") == "rlbox::tainted_volatile":
+                        hit = x
+                        break
+                    stack.extend(v for v in x.values() if isinstance(v, (dict, list)))
+                elif isinstance(x, list):
+                    stack.extend(v for v in x if isinstance(v, (dict, list)))
+            inst_ = "%s | %s" % (db.label, f["full"][:150])
+            if hit is not None:
+                rep.violation("R-C20-designation", site(f) + " [volatile copy]", "%s constructs a tainted_volatile object by value%s: the copy lives in application memory, and whatever is decoded or cast from it "
+                              "is rebased onto the copy's address instead of the sandbox cell's" % (f["sn"], " (a copy of another one)" if hit.get("copymove") else ""), hit.get("loc") or f["loc"], inst_)
+            elif f["sn"].startswith("sandbox_") and f["sn"].endswith("_cast"):
+                rep.ok("R-C20-designation", site(f), "no tainted_volatile object is constructed", inst_)
+    rep.require(n_scan >= 1000, "only %d library functions scanned for tainted_volatile constructions (floor 1000)" % n_scan)
     rep.rule("R-C20-invoke", "a tainted_opaque argument of a sandbox call reaches the backend exactly like the tainted value it stands for: through the checked conversion, never through a plain C++ conversion, and in the "
              "sandbox-ABI representation (shared analysis with C11's R-C11-args / R-C11-abi, on the instantiations that take tainted_opaque parameters)")
     from . import c11 as _c11
